@@ -200,12 +200,13 @@ def r2(ctx, retsets):
     tr = fn2.calls("trie_remove")
     ctx.floor("C02.R2", len(tr), 1)
     for c in tr:
-        g = [(vf.expr(fn2, x), t) for x, t, br in es.guards_of(fn2, c)]
-        empty = any(e[0] == "icmp" and e[1] == "eq" and t and e[3] == ("c", 0) and e[2][0] == "load" and vf.last_field(e[2][1]) == "node_data.len" for e, t in g)
+        G = es.Guards(fn2, c)
+        is_len = lambda x: x[0] == "load" and vf.last_field(x[1]) == "node_data.len"
+        empty = bool(G.find_eq(is_len, lambda y: y == ("c", 0))) or G.false(is_len)
         ctx.check(empty, "C02.R2", "pfx_table_remove:release-iff-empty", c.loc(), "trie_remove is reached only when the node's element array became empty", key="C02.R2:remove:empty")
     for s in [i for i in fn2.all_insts() if i.op == "store" and vf.store_field(i) in ("pfx_table.ipv4", "pfx_table.ipv6")]:
-        g = [(vf.expr(fn2, x), t) for x, t, br in es.guards_of(fn2, s)]
-        isroot = any(e[0] == "icmp" and e[1] == "eq" and t and {e[2][0], e[3][0]} == {"call"} and {e[2][1], e[3][1]} == {"trie_remove", "pfx_table_get_root"} for e, t in g)
+        G = es.Guards(fn2, s)
+        isroot = bool(G.find_eq(lambda x: x[0] == "call" and x[1] == "trie_remove", lambda y: y[0] == "call" and y[1] == "pfx_table_get_root"))
         ctx.check(isroot, "C02.R2", "pfx_table_remove:root-cleared-iff-root-released", s.loc(), "root pointer cleared under 'released node == root'", key="C02.R2:remove:root")
     # decision table: released node is / is not the root, per address family
     v4 = pdb.enum_value("LRTR_IPV4")
@@ -265,9 +266,8 @@ def r3(ctx, retsets):
     dels = fn.calls("pfx_table_del_elem")
     ctx.floor("C02.R3", len(dels), 1)
     d = dels[0]
-    g = [(vf.expr(fn, x), t) for x, t, br in es.guards_of(fn, d)]
-    own = any(e[0] == "icmp" and e[1] == "eq" and t and ("arg", 3) in (e[2], e[3]) and
-              any(x[0] == "load" and vf.last_field(x[1]) == "data_elem.socket" for x in (e[2], e[3])) for e, t in g)
+    G = es.Guards(fn, d)
+    own = bool(G.find_eq(lambda x: x[0] == "load" and vf.last_field(x[1]) == "data_elem.socket", lambda y: y == ("arg", 3)))
     ctx.check(own, "C02.R3", "delete-iff-own-source", d.loc(), "pfx_table_del_elem is reached only under ary[i].socket == socket", key="C02.R3:own")
     idx = vf.expr(fn, d.args[1])
     # after a successful deletion control returns to a test of the SAME slot (index not advanced)
@@ -465,13 +465,20 @@ def r4(ctx):
     fn = pdb.fn("trie_remove")
     ctx.touch(fn)
     reps = fn.calls("replace_node_data")
-    ctx.floor("C02.R4", len(reps), 2)
+    ctx.floor("C02.R4", len(reps), 1)
+
+    def is_child(e, depth=0):
+        if e[0] == "load" and vf.last_field(e[1]) in ("trie_node.lchild", "trie_node.rchild") and vf.root_of(e[1]) == ("arg", 0):
+            return True
+        if e[0] == "phi" and depth < 2:
+            return all(is_child(vf.expr(fn, v), depth + 1) for v, b in fn.insts[e[1]]["inc"])
+        return False
     for c in reps:
         child = vf.expr(fn, c.args[1])
         saved = [i for i in fn.all_insts() if i.op == "load" and vf.expr(fn, i["ptr"]) == ("fld", ("arg", 0), "trie_node.data") and fn.dom(i, c) and i.block.id == c.block.id]
         st = [i for i in fn.all_insts() if i.op == "store" and vf.store_field(i) == "trie_node.data" and fn.dom(c, i) and i.block.id == c.block.id]
-        good = vf.expr(fn, c.args[0]) == ("arg", 0) and child[0] == "load" and vf.last_field(child[1]) in ("trie_node.lchild", "trie_node.rchild") and \
-            bool(saved) and len(st) == 1 and vf.strip_casts(fn, st[0]["val"]) == saved[-1].ref and vf.last_field(vf.root_of(vf.expr(fn, st[0]["ptr"]))[1] if False else vf.expr(fn, st[0]["ptr"])[1][1]) == vf.last_field(child[1])
+        good = vf.expr(fn, c.args[0]) == ("arg", 0) and is_child(child) and \
+            bool(saved) and len(st) == 1 and vf.strip_casts(fn, st[0]["val"]) == saved[-1].ref and vf.expr(fn, st[0]["ptr"])[1] == child
         nxt = [r for r in fn.calls("trie_remove") if fn.dom(c, r) and r.block.id == c.block.id]
         good = good and len(nxt) == 1 and vf.expr(fn, nxt[0].args[0]) == child
         ctx.check(good, "C02.R4", "trie_remove:pull-up@%d" % c.line, c.loc(),
@@ -520,8 +527,7 @@ def r5(ctx):
     kids = []
     for r in recs:
         e = vf.expr(fn, r.args[0])
-        g = [(vf.expr(fn, x), t) for x, t, br in es.guards_of(fn, r)]
-        guarded = any((gg == e and t) or (gg[0] == "icmp" and gg[1] == "ne" and t and gg[2] == e) for gg, t in g)
+        guarded = es.Guards(fn, r).nonzero(e)
         kids.append((vf.last_field(e[1]) if e[0] == "load" else None, guarded, vf.expr(fn, r.args[1]) == ("arg", 1) and vf.expr(fn, r.args[2]) == ("arg", 2)))
     ctx.check(sorted(k[0] for k in kids) == ["trie_node.lchild", "trie_node.rchild"] and all(k[1] and k[2] for k in kids), "C02.R5", "each-child-once", "%s:%d" % (fn.relfile, fn.line),
               "recursion: %s" % kids, key="C02.R5:children")
